@@ -26,6 +26,7 @@ from vcommon import Run, tlc, require_tlc_ok, import_hvsrpy, main_wrapper, workd
 import heaplog
 
 NCLASS = {None: 0, 32768: 1, 65536: 2}
+ALL_STEMS = ("big1", "small1", "small2", "saf1", "saf2")
 
 
 def make_files(h, wd, rng):
@@ -43,6 +44,20 @@ def make_files(h, wd, rng):
         fn = os.path.join(wd, f"{stem}.mseed")
         Stream(trs).write(fn, format="MSEED")
         names[stem] = f"{stem}.mseed"
+    # two SAF files (text format with optional header keywords): saf1 carries NORTH_ROT = 30, saf2 has no NORTH_ROT line at all
+    for stem, north_rot in (("saf1", 30), ("saf2", None)):
+        fs, n = 100.0, 24500
+        t = np.arange(n) / fs
+        cols = [np.round((np.sin(2 * np.pi * 2.0 * t + rng.uniform(0, 6)) * (2.0 if k < 2 else 1.0) + rng.normal(size=n)) * 1000).astype(int) for k in range(3)]
+        lines = ["SESAME ASCII data format (saf) v. 1    (this line must not be modified)", f"SAMP_FREQ = {int(fs)}", f"NDAT = {n:010d}",
+                 "START_TIME = 2021 11 22 13 31 10.000", "SENSOR_TYPE = Velocity"]
+        if north_rot is not None:
+            lines.append(f"NORTH_ROT = {north_rot}")
+        lines += ["UNITS = Counts", "CH0_ID = V", "CH1_ID = N", "CH2_ID = E", "####--------------------------------"]
+        lines += [f"{cols[2][i]} {cols[0][i]} {cols[1][i]}" for i in range(n)]
+        with open(os.path.join(wd, f"{stem}.saf"), "w") as f_:
+            f_.write("\n".join(lines) + "\n")
+        names[stem] = f"{stem}.saf"
     pre = h.HvsrPreProcessingSettings(window_length_in_seconds=120.0, filter_corner_frequencies_in_hz=[None, None], detrend="linear")
     pro = h.HvsrTraditionalProcessingSettings(smoothing=dict(operator="konno_and_ohmachi", bandwidth=40, center_frequencies_in_hz=np.geomspace(0.5, 20, 16)))
     pre.save(os.path.join(wd, "pre.json"))
@@ -56,24 +71,51 @@ def make_files(h, wd, rng):
     return names
 
 
-def reference(h, wd, fname, pro_file="pro.json", pre_file="pre.json", dist_mc="lognormal", dist_fn="lognormal"):
-    """what read -> preprocess -> process -> write produce for this file alone with freshly loaded settings"""
-    cwd = os.getcwd()
-    os.chdir(wd)
-    try:
-        with warnings.catch_warnings():
-            warnings.simplefilter("ignore")
-            pre = h.read_settings_object_from_file(pre_file)
-            pro = h.read_settings_object_from_file(pro_file)
-            rec = h.read([[fname]])
-            win = h.preprocess(rec, pre)
-            res = h.process(win, pro)
-            out = f"ref_{pre_file}_{pro_file}_{dist_mc}_{dist_fn}_{fname}.csv"
-            h.write_hvsr_object_to_file(res, out, distribution_mc=dist_mc, distribution_fn=dist_fn)
-            n = pro.fft_settings["n"]
-        return open(out, "rb").read(), n
-    finally:
-        os.chdir(cwd)
+REF_SCRIPT = """
+import sys, warnings
+warnings.simplefilter("ignore")
+import hvsrpy as h
+pre_file, pro_file, fname, out, dist_mc, dist_fn = sys.argv[1:7]
+pre = h.read_settings_object_from_file(pre_file)
+pro = h.read_settings_object_from_file(pro_file)
+res = h.process(h.preprocess(h.read([[fname]]), pre), pro)
+h.write_hvsr_object_to_file(res, out, distribution_mc=dist_mc, distribution_fn=dist_fn)
+print("N=", pro.fft_settings["n"])
+"""
+
+
+class Refs:
+    """What read -> preprocess -> process -> write produce for ONE file ALONE with freshly loaded settings - in a process of its
+    own (module-level state left behind by another file must not be able to reach the reference)."""
+
+    def __init__(self, wd):
+        self.wd, self.cache = wd, {}
+
+    def key(self, stem, pro_file, dist):
+        return (stem, pro_file, tuple(dist))
+
+    def compute(self, k, fname):
+        stem, pro_file, dist = k
+        pre_file = "pre.json" if pro_file == "pro.json" else "pre2.json"
+        out = f"ref_{pre_file}_{pro_file}_{dist[0]}_{dist[1]}_{fname}.csv"
+        env = dict(os.environ, PYTHONPATH=REPO, MPLBACKEND="Agg", PYTHONWARNINGS="ignore")
+        env.pop("HVSRPY_VERIF_TRACE", None)
+        p = subprocess.run([sys.executable, "-c", REF_SCRIPT, pre_file, pro_file, fname, out, dist[0], dist[1]], cwd=self.wd, env=env,
+                           stdout=subprocess.PIPE, stderr=subprocess.STDOUT, text=True, timeout=600)
+        if p.returncode != 0:
+            return ("error", p.stdout[-400:])
+        n = [l for l in p.stdout.splitlines() if l.startswith("N=")][-1].split()[-1]
+        return (open(os.path.join(self.wd, out), "rb").read(), int(n))
+
+    def prefetch(self, wanted, names):
+        import concurrent.futures as cf
+        todo = [k for k in wanted if k not in self.cache]
+        with cf.ThreadPoolExecutor(6) as ex:
+            for k, r in zip(todo, ex.map(lambda k: self.compute(k, names[k[0]]), todo)):
+                self.cache[k] = r
+
+    def get(self, stem, pro_file, dist):
+        return self.cache[self.key(stem, pro_file, dist)]
 
 
 def main():
@@ -98,15 +140,7 @@ def main():
         raise MachineryError("the shared-settings configuration did not produce the expected counterexample")
     # ---- real CLI --------------------------------------------------------------------------------
     names = make_files(h, wd, rng)
-    refs = {stem: reference(h, wd, fn) for stem, fn in names.items() if stem in ("big1", "small1", "small2")}
-    refs2 = {stem: reference(h, wd, fn, "pro2.json", "pre2.json") for stem, fn in names.items() if stem in ("big1", "small1", "small2")}
-    # third variant: the two distribution options of the command line differ from each other and from their defaults
-    refs3 = {stem: reference(h, wd, fn, "pro.json", "pre.json", dist_mc="normal", dist_fn="lognormal") for stem, fn in names.items() if stem in ("big1", "small1", "small2")}
-    refs4 = {stem: reference(h, wd, fn, "pro2.json", "pre2.json", dist_mc="lognormal", dist_fn="normal") for stem, fn in names.items() if stem in ("big1", "small1", "small2")}
-    for stem, (_, n) in list(refs.items()) + list(refs2.items()):
-        want = 65536 if stem.startswith("big") else 32768
-        if n != want:
-            raise MachineryError(f"instance construction: {stem} alone uses n={n}, expected {want}")
+    refs = Refs(wd)
     sres = tlc("Cli", "Cli_swap", timeout=600)
     run.notes["negative_config_swapped_options_breaks_OptionsReachWriter"] = (sres.violated == "OptionsReachWriter")
     if sres.violated != "OptionsReachWriter":
@@ -128,17 +162,40 @@ def main():
         cs = max(1, len(files) // nproc)
         chunks = [files[i:i + cs] for i in range(0, len(files), cs)]
         return any("small1" in ch and "small2" in ch and ch.index("small1") < ch.index("small2") for ch in chunks)
+    def risky3(k):      # the SAF file with a NORTH_ROT header before the one without, in one chunk
+        files, nproc = k
+        cs = max(1, len(files) // nproc)
+        chunks = [files[i:i + cs] for i in range(0, len(files), cs)]
+        return any("saf1" in ch and "saf2" in ch and ch.index("saf1") < ch.index("saf2") for ch in chunks)
     rk = [k for k in keys if risky(k)]
     rk2 = [k for k in keys if risky2(k) and not risky(k)]
-    rest = [k for k in keys if not risky(k) and not risky2(k)]
+    rk3 = [k for k in keys if risky3(k)]
+    rest = [k for k in keys if not risky(k) and not risky2(k) and not risky3(k)]
     r2 = np.random.RandomState(run.seed)
-    r2.shuffle(rk); r2.shuffle(rk2); r2.shuffle(rest)
-    chosen = (rk[:3] + rk2[:2] + rest[:1]) if run.quick else (rk[:24] + rk2[:8] + rest[:12])
+    r2.shuffle(rk); r2.shuffle(rk2); r2.shuffle(rk3); r2.shuffle(rest)
+    chosen = (rk[:3] + rk2[:2] + rk3[:2] + rest[:1]) if run.quick else (rk[:24] + rk2[:8] + rk3[:8] + rest[:12])
+    run.notes["configs_saf_header_then_no_header"] = len([k for k in chosen if risky3(k)])
     run.notes["configs_same_fft_class_longer_window_first"] = len([k for k in chosen if risky2(k)])
     runs = []
     env = dict(os.environ, HVSRPY_VERIF="1", PYTHONPATH=REPO, MPLBACKEND="Agg", PYTHONWARNINGS="ignore")
+
+    def plan(ci):
+        pro_file = "pro.json" if ci % 2 == 0 else "pro2.json"
+        opts = ("lognormal", "lognormal")
+        if ci % 3 == 1:     # option values from the specification's OptSets with distribution_mc # distribution_fn
+            opts = ("normal", "lognormal") if pro_file == "pro.json" else ("lognormal", "normal")
+        return pro_file, opts
+    wanted = sorted({refs.key(f, *plan(ci)) for ci, (files, nproc) in enumerate(chosen) for f in files})
+    refs.prefetch(wanted, names)
+    for k in wanted:
+        r = refs.cache[k]
+        if r[0] == "error":
+            run.violation("cli:reference-pipeline-failed", f"read/preprocess/process/write of {k[0]} alone ({k[1]}, {k[2]}) failed: {r[1]}", dict(kind="cli-ref", key=list(k)))
+        elif r[1] != (65536 if k[0].startswith("big") else 32768):
+            raise MachineryError(f"instance construction: {k[0]} alone uses n={r[1]}")
+    run.notes["reference_pipelines_run_in_own_process"] = len(wanted)
     for ci, (files, nproc) in enumerate(chosen):
-        for stem in ("big1", "small1", "small2"):
+        for stem in ALL_STEMS:
             try:
                 os.remove(os.path.join(wd, f"{stem}.csv"))
             except FileNotFoundError:
@@ -147,16 +204,12 @@ def main():
         if os.path.exists(tf):
             os.remove(tf)
         env["HVSRPY_VERIF_TRACE"] = tf
-        pro_file = "pro.json" if ci % 2 == 0 else "pro2.json"
-        cur_refs = refs if pro_file == "pro.json" else refs2
+        pro_file, opts = plan(ci)
         dist_opts = []
-        opts = ("lognormal", "lognormal")
-        if ci % 3 == 1:     # option values from the specification's OptSets with distribution_mc # distribution_fn
-            opts = ("normal", "lognormal") if pro_file == "pro.json" else ("lognormal", "normal")
+        if opts != ("lognormal", "lognormal"):
             if opts not in optsets:
                 raise MachineryError(f"the option pair {opts} is not among the specification's OptSets {optsets}")
             dist_opts = ["--distribution_mc", opts[0], "--distribution_fn", opts[1]]
-            cur_refs = refs3 if pro_file == "pro.json" else refs4
         cmd = [sys.executable, "-c", "from hvsrpy.cli import cli; cli()", "--no_figure", "--nproc", str(nproc)] + dist_opts + [
                "--preprocessing_settings_file", "pre.json" if pro_file == "pro.json" else "pre2.json",
                "--processing_settings_file", pro_file] + [names[f] for f in files]
@@ -169,7 +222,7 @@ def main():
         ev = []
         for line in open(tf):
             pid, sid, fname, nb, na = line.split()
-            ev.append(dict(pid=int(pid), sid=int(sid), file=fname.replace(".mseed", ""), nb=NCLASS.get(None if nb == "None" else int(nb), 9),
+            ev.append(dict(pid=int(pid), sid=int(sid), file=fname.replace(".mseed", "").replace(".saf", ""), nb=NCLASS.get(None if nb == "None" else int(nb), 9),
                            na=NCLASS.get(None if na == "None" else int(na), 9)))
         # with an explicit n in the settings file every task legitimately starts from class 1 (32 768): class 0/1 coincide
         runs.append(dict(files=list(files), nproc=nproc, opts=list(opts), ev=[dict(file=e["file"], nb=e["nb"], na=e["na"]) for e in ev]))
@@ -180,7 +233,7 @@ def main():
                 run.violation("cli:missing-output", f"{key_cfg}: {f}.csv was not written", dict(kind="cli", files=files, nproc=nproc))
                 continue
             got = open(out, "rb").read()
-            if got != cur_refs[f][0]:
+            if got != refs.get(f, pro_file, opts)[0]:
                 cs = max(1, len(files) // nproc)
                 idx = list(files).index(f)
                 chunk = list(files[(idx // cs) * cs:(idx // cs) * cs + cs])
